@@ -265,6 +265,42 @@ def accepted_alphabet(node, consts, owners):
     return None
 
 
+def evaluated_alphabet(prog, f, kind):
+    """The same alphabet by the finite-point evaluator: the code points c for which is_ascii of the one-character and of a three-character
+    text of c's is true (the two must agree, and the empty text and a mixed text of accepted characters must be accepted), else None."""
+    from sa import ceval
+    ev = ceval.Evaluator(prog, budget=2000000)
+
+    def run(cps):
+        data = ''.join(chr(c) for c in cps) if kind == 'str' else bytes(cps) if kind == 'bytes' else ceval.VBuf(bytes(cps))
+        ev.reset()
+        try:
+            r = ev.call(f, None, args=(data,))
+        except (ceval.NoEval, ceval.Raised, ceval.Diverged):
+            return None
+        return r if isinstance(r, bool) else None
+    acc = set()
+    for c in range(256):
+        one, three = run([c]), run([c, c, c])
+        if one is None or three is None or one != three:
+            return None
+        if one:
+            acc.add(c)
+    if kind == 'str':
+        for c, tag in ((0x100, OTHER_CP), (0x20AC, OTHER_CP)):
+            r = run([c])
+            if r is None:
+                return None
+            if r:
+                acc.add(tag)
+    if run([]) is not True or (acc and run(sorted(x for x in acc if x < 256)) is not True):
+        return None
+    return frozenset(acc)
+
+
+OTHER_CP = 256
+
+
 def classifier(rep, prog, A):
     """Armorable.is_ascii decides whether input is armored text or binary packet data.  It must give the same answer for the same
     characters whether they arrive as str, bytes or bytearray, and must call text everything armored text can be made of."""
@@ -282,6 +318,8 @@ def classifier(rep, prog, A):
                 continue
             node = T.parse_term(render(s.ret))
             a = accepted_alphabet(node, consts, (A.name, 'cls')) if node is not None else None
+            if a is None:
+                a = evaluated_alphabet(prog, f, kind)
             if a is None:
                 raise AnalysisError('Armorable.is_ascii (%s input): classifier has an unmodelled shape: %s' % (kind, render(s.ret)[:160]))
             sets.add(a)
@@ -479,6 +517,18 @@ def writer(rep, prog, A):
         if node is not None:
             node = T.subst_class_constants(node, consts, owners=(selfn, A.name, 'cls'))
         ps = T.pieces(node if node is not None else render(s.ret))
+        if len(ps) == 1 and ps[0][0] == 'V' and isinstance(ps[0][1], (ast.Attribute, ast.Subscript)) and \
+                any(isinstance(n, ast.Name) and n.id == selfn for n in ast.walk(ps[0][1])) and not any(isinstance(n, ast.Call) for n in ast.walk(ps[0][1])):
+            # a remembered rendering is handed back: it is the text of the object now only if whatever decides the reuse covers everything the
+            # template reads - the label, the binary export and the armor headers
+            guard = ' '.join(t for t, v, sk in s.facts)
+            covers = '%s.ascii_headers' % selfn in guard and '%s.magic' % selfn in guard and \
+                ('%s.__bytearray__()' % selfn in guard or 'bytes(%s)' % selfn in guard)
+            rep.check(covers, 'C10.7', 'Armorable.__str__', 'remembered rendering %s reused' % T.show(ps[0][1]),
+                      'the armored text is a function of the label, the payload AND the armor headers at the time of the call: a cache whose key leaves out '
+                      'ascii_headers hands back a text without the headers supplied since', where=f.where,
+                      expected='reuse decided on (magic, export, ascii_headers)', found=guard[:300])
+            continue
         if len(ps) == 1 and ps[0][0] == 'V':
             raise AnalysisError('Armorable.__str__: the returned text is not built from literals the checker can read: %s' % render(s.ret)[:120])
         text, table = T.layout(ps)
@@ -691,11 +741,15 @@ def labels(rep, prog):
                       'a %s message is armored as PGP %s' % (t, lab), where=m.where, expected=lab, found=render(s.ret), scenario=t)
     m = prog.method('pgpy.pgp', 'PGPKey', 'magic')
     selfn = _receiver(m)
-    for kcls, lab in (('PubKeyV4', 'PUBLIC KEY BLOCK'), ('PubSubKeyV4', 'PUBLIC KEY BLOCK'), ('PrivKeyV4', 'PRIVATE KEY BLOCK'), ('PrivSubKeyV4', 'PRIVATE KEY BLOCK')):
-        if not prog.classes_by_name.get(kcls):
+    for kcls, lab in (('PubKeyV4', 'PUBLIC KEY BLOCK'), ('PubSubKeyV4', 'PUBLIC KEY BLOCK'), ('PrivKeyV4', 'PRIVATE KEY BLOCK'), ('PrivSubKeyV4', 'PRIVATE KEY BLOCK'),
+                      (None, ' KEY BLOCK')):          # an object without key material is neither
+        if kcls is not None and not prog.classes_by_name.get(kcls):
             raise AnalysisError('key packet class %s vanished' % kcls)
-        key = Sym('%s._key' % selfn, types={kcls}, nonnull=True)
-        outs = Interp(prog, Scenario(bind={'%s._key' % selfn: key}, inline=noinline)).run(m)
+        key = Sym('%s._key' % selfn, types={kcls}, nonnull=True) if kcls is not None else Const(None)
+        # the kind of the key packet may be asked through the object's own predicates (is_public ...): they are followed, not assumed
+        kprops = set(n for n in ('is_public', 'is_primary', 'is_protected', 'is_unlocked') if prog.cls('pgpy.pgp', 'PGPKey').find_plain_prop(n) or
+                     prog.cls('pgpy.pgp', 'PGPKey').find_prop(n))
+        outs = Interp(prog, Scenario(bind={'%s._key' % selfn: key}, inline=lambda fi: noinline(fi) or fi.name == 'is_public', inline_props=kprops)).run(m)
         got = sorted(set(str(_label(s)) for s in outs))
         rep.check(got == [lab], 'C10.4', 'PGPKey.magic', '%s -> %s' % (kcls, got),
                   'keys are armored as PGP PUBLIC KEY BLOCK / PGP PRIVATE KEY BLOCK by the kind of their key packet', where=m.where,
@@ -975,6 +1029,12 @@ def reader(rep, prog, A, writer_sep):
             react_bad.append('a path on which the CRCs may differ ends without warning / error: (%s) = %s' % (t[-100:], val))
         if reported and not may_differ and may_agree:
             pol_bad.append('%s = %s reports although the CRCs agree' % (t[-100:], val))
+    # every path that hands back an armored match has decoded and compared the checksum (no early return in front of the comparison)
+    unchecked = [s for s in paths if s.raised is None and regex_calls(s) and s not in crc_paths and not _assumes_absent(s, 'crc') and
+                 not any(t.startswith('except ') for t, v, sk in s.facts)]
+    rep.check(not unchecked, 'C10.6', 'Armorable.ascii_unarmor', 'returns of a matched block without the CRC comparison: %d' % len(unchecked),
+              'every path of ascii_unarmor that returns an armored block passes the CRC-24 comparison; a return in front of it lets a corrupted block load silently',
+              where=f.where, expected='0', found=[[t[-70:] + ' = %s' % v for t, v, sk in s.facts][-3:] for s in unchecked[:2]])
     rep.check(bool(crc_paths) and n_cmp == len(crc_paths), 'C10.6', 'Armorable.ascii_unarmor', 'crc comparison on %d of %d CRC paths' % (n_cmp, len(crc_paths)),
               'crc24(decoded body) is compared with the decoded CRC value on every path that has a CRC line', where=f.where,
               expected="crc24(b64decode(body)) != bytes_to_int(b64decode(crc))")
@@ -1000,6 +1060,15 @@ def reader(rep, prog, A, writer_sep):
                     ok = False
             if not refs_group(node, name):
                 ok = False
+            # the decoder is applied to the whole group (all lines joined: base64 quanta may straddle line breaks), not piece by piece
+            for call in _calls_named(node, ('b64decode', 'a2b_base64', 'decodebytes')):
+                arg = call.args[0] if call.args else None
+                while isinstance(arg, ast.Call) and isinstance(arg.func, ast.Attribute) and arg.func.attr == 'encode':
+                    arg = arg.func.value
+                if arg is None or not _is_group_ref(arg, name):
+                    if arg is not None and any(isinstance(n, ast.Name) and n.id.startswith('_B') for n in ast.walk(arg)):
+                        ok = False
+                        what = what + ' as a whole (decoding line by line fails when a line is not a multiple of 4 characters long)'
         rep.check(ok, 'C10.6', 'Armorable.ascii_unarmor', '%s decode' % name, what, where=f.where, found=sorted(str(v)[:120] for v in vals))
     # ---- header line separator agreement
     seps = set()
